@@ -1111,6 +1111,23 @@ impl ConfigBuilder {
     pub fn build(&self) -> Result<Config, ConfigBuilderError> {
         // check all constraints on config
 
+        // The defaults apply to every topic without an override of its own.
+        if self.config.protocol.default_max_transmit_size < 100 {
+            return Err(ConfigBuilderError::MaxTransmissionSizeTooSmall);
+        }
+
+        let default_mesh = &self.config.topic_configuration.default_mesh_params;
+        if !(default_mesh.mesh_outbound_min <= default_mesh.mesh_n_low
+            && default_mesh.mesh_n_low <= default_mesh.mesh_n
+            && default_mesh.mesh_n <= default_mesh.mesh_n_high)
+        {
+            return Err(ConfigBuilderError::MeshParametersInvalid);
+        }
+
+        if default_mesh.mesh_outbound_min * 2 > default_mesh.mesh_n {
+            return Err(ConfigBuilderError::MeshOutboundInvalid);
+        }
+
         let pre_configured_topics = self.config.protocol.max_transmit_sizes.keys();
         for topic in pre_configured_topics {
             if self.config.protocol.max_transmit_size_for_topic(topic) < 100 {
